@@ -153,6 +153,8 @@ impl Writer {
 
 struct Reader<'a> {
     r: BufReader<&'a mut File>,
+    /// Number of bytes consumed from the file so far.
+    pos: u64,
     ids: IdMap,
     graph: &'a mut Graph,
     hashes: &'a mut Hashes,
@@ -162,18 +164,21 @@ impl<'a> Reader<'a> {
     fn read_u16(&mut self) -> std::io::Result<u16> {
         let mut buf: [u8; 2] = [0; 2];
         self.r.read_exact(&mut buf[..])?;
+        self.pos += 2;
         Ok(u16::from_le_bytes(buf))
     }
 
     fn read_u24(&mut self) -> std::io::Result<u32> {
         let mut buf: [u8; 4] = [0; 4];
         self.r.read_exact(&mut buf[..3])?;
+        self.pos += 3;
         Ok(u32::from_le_bytes(buf))
     }
 
     fn read_u64(&mut self) -> std::io::Result<u64> {
         let mut buf: [u8; 8] = [0; 8];
         self.r.read_exact(&mut buf)?;
+        self.pos += 8;
         Ok(u64::from_le_bytes(buf))
     }
 
@@ -184,6 +189,7 @@ impl<'a> Reader<'a> {
     fn read_str(&mut self, len: usize) -> std::io::Result<String> {
         let mut buf = vec![0; len];
         self.r.read_exact(buf.as_mut_slice())?;
+        self.pos += len as u64;
         Ok(unsafe { String::from_utf8_unchecked(buf) })
     }
 
@@ -269,36 +275,49 @@ impl<'a> Reader<'a> {
         Ok(())
     }
 
-    fn read_file(&mut self) -> anyhow::Result<()> {
+    fn read_record(&mut self) -> std::io::Result<()> {
+        let mut len = self.read_u16()?;
+        let mask = 0b1000_0000_0000_0000;
+        if len & mask == 0 {
+            self.read_path(len as usize)
+        } else {
+            len &= !mask;
+            self.read_build(len as usize)
+        }
+    }
+
+    /// Reads all complete records.  Returns the length of the prefix of the file they
+    /// occupy; anything after it is a record cut short by a crash while it was appended.
+    fn read_file(&mut self) -> anyhow::Result<u64> {
         self.read_signature()?;
+        self.pos = 8;
+        let mut valid = self.pos;
         loop {
-            let mut len = match self.read_u16() {
-                Ok(r) => r,
+            match self.read_record() {
+                Ok(()) => valid = self.pos,
                 Err(err) if err.kind() == std::io::ErrorKind::UnexpectedEof => break,
                 Err(err) => bail!(err),
-            };
-            let mask = 0b1000_0000_0000_0000;
-            if len & mask == 0 {
-                self.read_path(len as usize)?;
-            } else {
-                len &= !mask;
-                self.read_build(len as usize)?;
             }
         }
-        Ok(())
+        Ok(valid)
     }
 
     /// Reads an on-disk database, loading its state into the provided Graph/Hashes.
-    fn read(f: &mut File, graph: &mut Graph, hashes: &mut Hashes) -> anyhow::Result<IdMap> {
+    fn read(
+        f: &mut File,
+        graph: &mut Graph,
+        hashes: &mut Hashes,
+    ) -> anyhow::Result<(IdMap, u64)> {
         let mut r = Reader {
             r: std::io::BufReader::new(f),
+            pos: 0,
             ids: IdMap::default(),
             graph,
             hashes,
         };
-        r.read_file()?;
+        let valid = r.read_file()?;
 
-        Ok(r.ids)
+        Ok((r.ids, valid))
     }
 }
 
@@ -310,7 +329,19 @@ pub fn open(path: &Path, graph: &mut Graph, hashes: &mut Hashes) -> anyhow::Resu
         .open(path)
     {
         Ok(mut f) => {
-            let ids = Reader::read(&mut f, graph, hashes)?;
+            let len = f.metadata()?.len();
+            if len < 8 {
+                // The process died while the signature was being written: start over.
+                f.set_len(0)?;
+                let mut w = Writer::from_opened(IdMap::default(), f);
+                w.write_signature()?;
+                return Ok(w);
+            }
+            let (ids, valid) = Reader::read(&mut f, graph, hashes)?;
+            if valid < len {
+                // Drop a record cut short by a crash, so that appends stay well-framed.
+                f.set_len(valid)?;
+            }
             Ok(Writer::from_opened(ids, f))
         }
         Err(err) if err.kind() == std::io::ErrorKind::NotFound => {
